@@ -39,6 +39,7 @@ func c07Compile(c *Ctx) {
 		np = 8000
 	}
 	c07PathStream(c, np)
+	c07WholeRefStream(c, np/4)
 	c07FieldTypeTie(c, np/2)
 	c07StrictStream(c, np*2)
 	c07Pipelines(c)
